@@ -293,6 +293,9 @@ func parseEntryDirective(e *HarnessEntry, s string) error {
 			e.Native = true
 		case "float":
 			e.Float = v
+		case "recycle":
+			n, _ := strconv.Atoi(v)
+			e.Recycle = n
 		default:
 			return fmt.Errorf("unknown entry option %q", k)
 		}
@@ -410,6 +413,11 @@ func runCheck(prop, tier string, nWorkers int, solverName, only, repo string, bu
 			for _, f := range strings.Fields(px) {
 				n, _ := strconv.Atoi(f[1:])
 				dd := Decision{K: f[0], C: n, N: 2}
+				if f[0] == 'v' {
+					c, val, _ := strings.Cut(f[1:], "=")
+					dd.C, _ = strconv.Atoi(c)
+					dd.V = val
+				}
 				pre = append(pre, dd)
 			}
 			d.stack = [][]Decision{pre}
@@ -465,11 +473,12 @@ func runCheck(prop, tier string, nWorkers int, solverName, only, repo string, bu
 		}
 	}
 	for _, w := range allWorkers {
-		d.queries += w.solver.queries
-		d.qSat += w.solver.sat
-		d.qUnsat += w.solver.unsat
-		d.qUnknown += w.solver.unknown
-		d.solverTime += w.solver.elapsed
+		w.foldSolverStats()
+		d.queries += w.accQ
+		d.qSat += w.accSat
+		d.qUnsat += w.accUnsat
+		d.qUnknown += w.accUnknown
+		d.solverTime += w.accElapsed
 	}
 
 	// classify
